@@ -557,6 +557,35 @@ pub fn drive<C: Check>(check: &C, opts: &Opts, extra: Vec<ExtraPhase>) -> i32 {
             continue;
         }
         let Some((min_sc, min_v, execs)) = minimise(check, &f.scenario, &f.violation.invariant) else {
+            // Not reproducible in THIS process. If the run itself changed state the process keeps (what C18 is
+            // about), the scenario still reproduces in a fresh process: decide that with a child, and report the
+            // un-minimised scenario as the replay file (replay = a fresh process executing it).
+            let rf = ReplayFile {
+                property: check.id().to_string(),
+                seed: opts.seed,
+                index: f.index,
+                invariant: f.violation.invariant.clone(),
+                key: f.violation.key.clone(),
+                detail: f.violation.detail.clone(),
+                minimised: false,
+                shrink_executions: 0,
+                scenario: serde_json::to_value(&f.scenario).unwrap(),
+            };
+            let p = write_replay(&opts.root, &rf);
+            let child = std::env::current_exe().ok().and_then(|exe| {
+                std::process::Command::new(exe).arg("replay").arg(&p).stdout(std::process::Stdio::null()).stderr(std::process::Stdio::null()).status().ok()
+            });
+            if child.and_then(|s| s.code()) == Some(1) {
+                violations += 1;
+                println!(
+                    "violation: invariant={} run={} detail={} (reproduces in a fresh process only: the run leaves state in the process)",
+                    f.violation.invariant, f.index, f.violation.detail
+                );
+                println!("VIOLATION property={} replay={}", check.id(), p.display());
+                exit = 1;
+                continue;
+            }
+            if std::env::var("BPSIM_KEEP").is_err() { let _ = std::fs::remove_file(&p); }
             eprintln!("HARNESS-ERROR run {} reported {} but re-executing its scenario did not reproduce it (the result depends on something outside the run: state kept by the process, or nondeterminism in the harness)", f.index, f.violation.invariant);
             batch_harness_error = true;
             continue;
